@@ -19,6 +19,7 @@ func posKey(pos int) string { return string(rune('a' + pos)) }
 type eval struct {
 	failPos int // -1: none
 	failed  bool
+	refused string // set by a model when the framework itself has to refuse the run (not a failing node)
 	execs   int
 }
 
@@ -464,6 +465,50 @@ func multiBranch(name string, stream bool) shape {
 		}}
 }
 
+// chainGhost: a chain multi-branch whose condition selects, for the L input, one of its branches AND a key that is
+// no branch of it: the framework has to refuse that selection in every paradigm alike (Invoke evaluates the value
+// form of the condition wrapper, Stream / Collect / Transform the stream form). The R input selects branch c only.
+func chainGhost(name string, stream bool) shape {
+	sel := func(v any) (map[string]bool, error) {
+		if v.(string)[0] == 'L' {
+			return map[string]bool{"b": true, "ghost": true}, nil
+		}
+		return map[string]bool{"c": true}, nil
+	}
+	return shape{name: name, feat: "chain-branch", npos: 3, inputs: inMLR,
+		build: func(f *factory) (runner, error) {
+			ch := compose.NewChain[M, M]()
+			ch.AppendLambda(f.M(0))
+			var br *compose.ChainBranch
+			if stream {
+				br = compose.NewStreamChainMultiBranch(func(ctx context.Context, in *schema.StreamReader[M]) (map[string]bool, error) {
+					defer in.Close()
+					c, err := in.Recv()
+					if err != nil {
+						return nil, fmt.Errorf("c04 branch condition: first Recv: %w", err)
+					}
+					return sel(c["a"])
+				})
+			} else {
+				br = compose.NewChainMultiBranch(func(ctx context.Context, in M) (map[string]bool, error) { return sel(in["a"]) })
+			}
+			ch.AppendBranch(br.AddLambda("b", f.M(1)).AddLambda("c", f.M(2)))
+			r, err := ch.Compile(context.Background())
+			if err != nil {
+				return nil, err
+			}
+			return runnerT[M, M]{r}, nil
+		},
+		model: func(e *eval, x any) any {
+			ya := e.m(0, x.(M))
+			if ya["a"].(string)[0] == 'L' {
+				e.failed, e.refused = true, "the branch condition selects a key that is no branch of it"
+				return nil
+			}
+			return e.m(2, ya)
+		}}
+}
+
 // anyinBranch: the graph input is typed any, the branch on START reads maps: pre-branch type check.
 func anyinBranch(name string, stream bool) shape {
 	return shape{name: name, feat: "any-edge-branch", npos: 2, inputs: inMLR,
@@ -804,6 +849,8 @@ func allShapes() []shape {
 				}
 				return e.m(2, ya)
 			}},
+		chainGhost("chain-mbranch-ghost", false),
+		chainGhost("chain-smbranch-ghost", true),
 
 		// ---- interface typed edges (type checks at run time, value and stream form)
 		{name: "anyin-lin", feat: "any-edge", npos: 2, inputs: inM,
